@@ -90,6 +90,7 @@ EditPrograms == { << c, C("Edit", TRUE, [x |-> 0]), c >> : c \in { d \in TopCall
 
 Init == \/ cont = << >> /\ calls = << >> /\ failed = FALSE
         \/ calls \in SweepPrograms \cup EditPrograms /\ cont = Final(<< >>, calls) /\ failed = TRUE
+        \/ calls \in { << C("HeaderSweep", TRUE, [x |-> k]) >> : k \in 1..NHeaderSweeps } /\ cont = << >> /\ failed = TRUE
 Build(c) == /\ CallEnabled(cont, c)
             /\ cont' = ApplyCall(cont, c).cont
             /\ calls' = Append(calls, c)
@@ -109,8 +110,10 @@ Next ==
                          /\ Build(c)
 
 NM == [ispi |-> Ramp(8, 1), rspi |-> D(8, 30), xt |-> 35, response |-> (Len(calls) % 2 = 0), initiator |-> (Len(calls) % 3 # 0), mid |-> << 0, 0, 1, Len(calls) >>]
-Emit == Len(calls) > 0 /\ (IF Len(cont) = 0 THEN TRUE ELSE Complete(Last(cont))) => PrintT(ToJson(BuilderVector(calls, NM)))
-Sound == cont = Final(<< >>, calls)
+IsHeaderSweep == Len(calls) = 1 /\ calls[1].fn = "HeaderSweep"
+Emit == Len(calls) > 0 /\ (IF Len(cont) = 0 THEN TRUE ELSE Complete(Last(cont)))
+          => PrintT(ToJson(IF IsHeaderSweep THEN HeaderSweepVector(calls[1].x) ELSE BuilderVector(calls, NM)))
+Sound == IsHeaderSweep \/ cont = Final(<< >>, calls)
 \* C19 at the design level: a call appends at most one payload and never touches an earlier one
 IsReset == Len(calls') > 0 /\ calls'[Len(calls')].fn = "Reset"
 EarlierUntouched == [][IsReset \/ \A i \in 1..(Len(cont) - 1) : cont'[i] = cont[i]]_<< cont, calls, failed >>
